@@ -12,16 +12,19 @@ import json
 from . import core
 
 H = (1.0, 0.5, 0.25)          # resolution per axis (Caching.tla: Spacing / 4)
+ORIGINS = {"origin": (0.0, 0.0, 0.0), "offset": (-3.75, 2.5, 100.0), "fine": (8.0, 8.0, 4.0)}      # Caching.tla: Origins / 4
+SPACING = {"fine": (0.005, 0.005, 0.005)}       # the "fine" lattice: 5 mm cells eight metres from the origin (a large tokamak); others use H
 POLYS = [(2, -3, 1, 1), (5, 2, 0, 0), (1, 0, -2, 0), (-4, 1, 3, -1)]
 
 
 class F:
     """recording wrapped function; separable polynomial so that it is multilinear when the 1-D polynomial is linear"""
-    def __init__(self, poly, dim):
-        self.p, self.dim, self.calls = poly, dim, []
+    def __init__(self, poly, dim, place="origin"):
+        self.p, self.dim, self.calls, self.x0 = poly, dim, [], ORIGINS[place]
 
     def f1(self, x, k=0):
         a = self.p
+        x = x - self.x0[k]            # the polynomial is a function of the distance from the area's corner
         return a[0] + a[1] * x + a[2] * x * x + a[3] * x * x * x + 0.25 * k
 
     def __call__(self, *a):
@@ -32,11 +35,13 @@ class F:
         return v
 
 
-def make(dim, n, poly, nbe, fb):
+def make(dim, n, poly, nbe, fb, place="origin"):
     from cherab.core.math import Caching1D, Caching2D, Caching3D
-    f = F(poly, dim)
-    area = tuple(x for k in range(dim) for x in (0.0, n * H[k]))
-    res = H[0] if dim == 1 else tuple(H[k] for k in range(dim))
+    f = F(poly, dim, place)
+    X0 = ORIGINS[place]
+    h = SPACING.get(place, H)
+    area = tuple(x for k in range(dim) for x in (X0[k], X0[k] + n * h[k]))
+    res = h[0] if dim == 1 else tuple(h[k] for k in range(dim))
     cls = {1: Caching1D, 2: Caching2D, 3: Caching3D}[dim]
     return cls(f, area, res, no_boundary_error=nbe, function_boundaries=fb), f
 
@@ -45,34 +50,35 @@ def replay(rec, ctx):
     cx = ctx or rec
     dim, n, poly = cx["dim"], cx["n"], POLYS[cx["poly"] - 1]
     viol = []
-    for nbe, fb in ((False, None), (True, (-7.0, 13.0))):
-        cache, f = make(dim, n, poly, nbe, fb)
-        tag = f"Caching{dim}D" + ("[bounds]" if fb else "")
+    for place, nbe, fb in (("origin", False, None), ("origin", True, (-7.0, 13.0)), ("offset", False, None)):
+        X0 = ORIGINS[place]
+        cache, f = make(dim, n, poly, nbe, fb, place)
+        tag = f"Caching{dim}D" + ("[bounds]" if fb else "") + ("@offset" if place != "origin" else "")
 
         def bad(what, detail):
             viol.append({"sig": f"{tag}:{what}", "detail": f"{detail} | history {json.dumps(rec['h'])[:300]}"})
         for i, e in enumerate(rec["h"]):
             f.calls.clear()
             if e["op"] == "outside":
-                pt = tuple((-0.5 if e["side"] == "below" else n + 0.5) * H[k] for k in range(dim))
+                pt = tuple(X0[k] + (-0.5 if e["side"] == "below" else n + 0.5) * H[k] for k in range(dim))
                 try:
                     val = cache(*pt)
                     if not nbe:
                         bad("outside-area-no-error", f"returned {val}")
-                    elif f.calls != [pt] or val != F(poly, dim)(*pt):
+                    elif f.calls != [pt] or val != F(poly, dim, place)(*pt):
                         bad("outside-area-not-direct-evaluation", f"calls {f.calls}, value {val}")
                 except ValueError:
                     if nbe:
                         bad("outside-area-raised-despite-no_boundary_error", "")
                 continue
-            pt = tuple((c + q / 4.0) * H[k] for k, (c, q) in enumerate(zip(e["c"], e["q"])))
+            pt = tuple(X0[k] + (c + q / 4.0) * H[k] for k, (c, q) in enumerate(zip(e["c"], e["q"])))
             try:
                 val = cache(*pt)
             except Exception as ex:      # noqa: BLE001
                 bad(f"raised-{type(ex).__name__}", repr(ex)[:200])
                 break
-            asked = [tuple(int(round(x / H[k])) for k, x in enumerate(call)) for call in f.calls]
-            off = max([abs(x / H[k] - round(x / H[k])) for call in f.calls for k, x in enumerate(call)] or [0.0])
+            asked = [tuple(int(round((x - X0[k]) / H[k])) for k, x in enumerate(call)) for call in f.calls]
+            off = max([abs((x - X0[k]) / H[k] - round((x - X0[k]) / H[k])) for call in f.calls for k, x in enumerate(call)] or [0.0])
             want = [tuple(a) for a in e["asks"]]
             if asked != want or off > 1e-6:
                 bad("sampling-protocol-differs", f"evaluation {i} at {pt}: asked nodes {asked[:8]}.. spec {want[:8]}.. (max node offset {off:.1e})")
@@ -81,11 +87,11 @@ def replay(rec, ctx):
                 exact = e["value128"] / 128.0
                 if abs(val - exact) > 2e-5 * max(1.0, abs(exact)):
                     bad("value-differs-from-hermite-interpolant", f"f_cached({pt[0]}) = {val!r}, spec {exact!r}")
-            fresh, _ = make(dim, n, poly, nbe, fb)
+            fresh, _ = make(dim, n, poly, nbe, fb, place)
             vf = fresh(*pt)
             if not core.close(val, vf, rtol=1e-12, atol=1e-12):
                 bad("value-depends-on-history", f"at {pt}: {val!r} after this history, {vf!r} on a fresh instance")
-            plain, _ = make(dim, n, poly, False, None)
+            plain, _ = make(dim, n, poly, False, None, place)
             vp = plain(*pt)
             if not core.close(val, vp, rtol=1e-9, atol=1e-9):
                 bad("value-depends-on-function_boundaries", f"at {pt}: {val!r} vs {vp!r} without bounds")
@@ -96,24 +102,45 @@ def identities(dim, n):
     """node exactness and multilinear exactness on fresh instances (whole area sweep)."""
     out = []
     lin = POLYS[1]
-    for fb in (None, (-50.0, 300.0)):
-        cache, f = make(dim, n, lin, False, fb)
-        ref = F(lin, dim)
-        pts = list(itertools.product(*[[(0.37 + k) * H[ax] for k in range(n)] + [(n - 0.01) * H[ax], 0.02 * H[ax]] for ax in range(dim)]))
+    for place, fb in (("origin", None), ("origin", (-50.0, 300.0)), ("offset", None), ("fine", None)):
+        X0 = ORIGINS[place]
+        H = SPACING.get(place, globals()["H"])
+        at = "@" + place if place != "origin" else ""
+        cache, f = make(dim, n, lin, False, fb, place)
+        ref = F(lin, dim, place)
+        pts = list(itertools.product(*[[X0[ax] + (0.37 + k) * H[ax] for k in range(n)] + [X0[ax] + (n - 0.01) * H[ax], X0[ax] + 0.02 * H[ax]] for ax in range(dim)]))
+        # exactness up to rounding: 1e-9 on the lattice at the origin, 1e-7 on the displaced ones (the nodes are shifted by 1e-7)
+        tol = 1e-9 if place == "origin" else 1e-7
         for pt in pts[:400]:
             v, w = cache(*pt), ref(*pt)
-            if abs(v - w) > 1e-9 * max(1.0, abs(w)):
-                out.append({"sig": f"Caching{dim}D{'[bounds]' if fb else ''}:multilinear-function-not-reproduced", "detail": f"at {pt}: {v!r} vs {w!r}"})
+            if abs(v - w) > tol * max(1.0, abs(w)):
+                out.append({"sig": f"Caching{dim}D{'[bounds]' if fb else ''}{at}:multilinear-function-not-reproduced", "detail": f"at {pt}: {v!r} vs {w!r}"})
                 break
         cub = POLYS[0]
-        cache, f = make(dim, n, cub, False, fb)
-        ref = F(cub, dim)
-        cache(*[(n / 2.0 + 0.3) * H[ax] for ax in range(dim)])
-        nodes = [c for c in f.calls if all(0.0 <= x <= n * H[ax] for ax, x in enumerate(c))]
+        cache, f = make(dim, n, cub, False, fb, place)
+        ref = F(cub, dim, place)
+        cache(*[X0[ax] + (n / 2.0 + 0.3) * H[ax] for ax in range(dim)])
+        nodes = [c for c in f.calls if all(X0[ax] <= x <= X0[ax] + n * H[ax] for ax, x in enumerate(c))]
         for nd in nodes[:30]:
             v, w = cache(*nd), ref(*nd)
-            if abs(v - w) > 1e-9 * max(1.0, abs(w)):
-                out.append({"sig": f"Caching{dim}D{'[bounds]' if fb else ''}:not-exact-at-sampling-node", "detail": f"node {nd}: {v!r} vs {w!r}"})
+            if abs(v - w) > tol * max(1.0, abs(w)):
+                out.append({"sig": f"Caching{dim}D{'[bounds]' if fb else ''}{at}:not-exact-at-sampling-node", "detail": f"node {nd}: {v!r} vs {w!r}"})
+                break
+        # a smooth function of unit curvature: the error must stay below the h^2 bound of the cubic interpolant
+        # ((5/32) h^2 max|f''| per axis; 3 h^2 is a generous envelope for every dimension)
+        import math
+        from cherab.core.math import Caching1D, Caching2D, Caching3D
+
+        def smooth(*a):
+            x = a + (0.0, 0.0)
+            return math.sin(x[0]) * math.cos(0.7 * x[1]) + 0.3 * x[2] * x[2]
+        area = tuple(x for k in range(dim) for x in (X0[k], X0[k] + n * H[k]))
+        cs = {1: Caching1D, 2: Caching2D, 3: Caching3D}[dim](smooth, area, H[0] if dim == 1 else tuple(H[:dim]))
+        bound = 3.0 * max(H[:dim]) ** 2 + 1e-9
+        for pt in pts[:200]:
+            v, w = cs(*pt), smooth(*pt)
+            if abs(v - w) > bound:
+                out.append({"sig": f"Caching{dim}D{at}:error-exceeds-curvature-bound", "detail": f"at {pt}: {v!r} vs {w!r}, bound {bound:.2e} for resolution {H[:dim]}"})
                 break
     return out
 
